@@ -94,6 +94,8 @@ struct Tls {
     total_refused: Cell<u64>,
     win_refused: Cell<u32>,
     runaway: Cell<bool>,
+    /// apply the environment (skew / junk / scribble / cap / refusals) outside windows too, without recording
+    always: Cell<bool>,
 }
 
 thread_local! {
@@ -117,6 +119,7 @@ thread_local! {
         total_refused: Cell::new(0),
         win_refused: Cell::new(0),
         runaway: Cell::new(false),
+        always: Cell::new(false),
     } };
 }
 
@@ -269,6 +272,9 @@ fn next_xs(c: &Cell<u64>) -> u64 {
 }
 
 fn record(t: &Tls, ev: Event) {
+    if !t.in_window.get() {
+        return;
+    }
     let n = t.n.get();
     if n >= RING {
         t.overflow.set(true);
@@ -285,7 +291,7 @@ unsafe impl GlobalAlloc for Hostile {
         let size = layout.size();
         let align = layout.align();
         let r = TLS.try_with(|t| {
-            let active = t.in_window.get() && t.paused.get() == 0;
+            let active = (t.in_window.get() || t.always.get()) && t.paused.get() == 0;
             if !active {
                 return None;
             }
@@ -633,6 +639,9 @@ pub fn set_skew(mode: u8, seed: u64) {
         t.skew.set(mode);
         t.skew_state.set(seed | 1);
     });
+}
+pub fn set_always(a: bool) {
+    TLS.with(|t| t.always.set(a));
 }
 pub fn set_junk(j: bool) {
     TLS.with(|t| t.junk.set(j));
